@@ -569,53 +569,36 @@ func (s *Subtitles) ForceDuration(d time.Duration, addDummyItem bool) {
 // Fragment fragments subtitles with a specific fragment duration
 func (s *Subtitles) Fragment(f time.Duration) {
 	// Nothing to fragment
-	if len(s.Items) == 0 {
+	if len(s.Items) == 0 || f <= 0 {
 		return
 	}
 
-	// Here we want to simulate fragments of duration f until there are no subtitles left in that period of time
-	var fragmentStartAt, fragmentEndAt = time.Duration(0), f
-	for fragmentStartAt < s.Items[len(s.Items)-1].EndAt {
-		// We loop through subtitles and process the ones that either contain the fragment start at,
-		// or contain the fragment end at
-		//
-		// It's useless processing subtitles contained between fragment start at and end at
-		//             |____________________|             <- subtitle
-		//           |                        |
-		//   fragment start at        fragment end at
-		for i, sub := range s.Items {
-			// Init
-			var newSub = &Item{}
-			*newSub = *sub
-
-			// A switch is more readable here
-			switch {
-			// Subtitle contains fragment start at
-			// |____________________|                         <- subtitle
-			//           |                        |
-			//   fragment start at        fragment end at
-			case sub.StartAt < fragmentStartAt && sub.EndAt > fragmentStartAt:
-				sub.StartAt = fragmentStartAt
-				newSub.EndAt = fragmentStartAt
-			// Subtitle contains fragment end at
-			//                         |____________________| <- subtitle
-			//           |                        |
-			//   fragment start at        fragment end at
-			case sub.StartAt < fragmentEndAt && sub.EndAt > fragmentEndAt:
-				sub.StartAt = fragmentEndAt
-				newSub.EndAt = fragmentEndAt
-			default:
-				continue
-			}
-
-			// Insert new sub
-			s.Items = append(s.Items[:i], append([]*Item{newSub}, s.Items[i:]...)...)
+	// Here we want to simulate fragments of duration f: every subtitle is cut at each fragment boundary
+	// (multiple of f) it strictly contains
+	//
+	//   |__________|__________|_____|                      <- subtitle
+	//              |          |
+	//           boundary   boundary
+	var items = make([]*Item, 0, len(s.Items))
+	for _, sub := range s.Items {
+		// Get first boundary after the subtitle's start at
+		var boundary = sub.StartAt - sub.StartAt%f
+		if boundary <= sub.StartAt {
+			boundary += f
 		}
 
-		// Update fragments boundaries
-		fragmentStartAt += f
-		fragmentEndAt += f
+		// Loop through boundaries contained in the subtitle
+		for ; boundary < sub.EndAt; boundary += f {
+			// Insert new sub
+			var newSub = &Item{}
+			*newSub = *sub
+			newSub.EndAt = boundary
+			items = append(items, newSub)
+			sub.StartAt = boundary
+		}
+		items = append(items, sub)
 	}
+	s.Items = items
 
 	// Order
 	s.Order()
